@@ -254,6 +254,7 @@ func (sc *SortCtx) elemFn(ss string) string {
 		es := sc.sliceElem[ss]
 		sc.declFun(n, fmt.Sprintf("(declare-fun %s (%s Int) %s)", n, ss, es))
 		sc.axiom(n, fmt.Sprintf("(assert (forall ((s %s) (i Int)) (! (= (%s s i) (select (arr_%s s) (+ (off_%s s) i))) :pattern ((%s s i)))))", ss, n, ss, ss, n))
+		sc.axiom(n+"-rev", fmt.Sprintf("(assert (forall ((s %s) (j Int)) (! (= (select (arr_%s s) j) (%s s (- j (off_%s s)))) :pattern ((select (arr_%s s) j)))))", ss, ss, n, ss, ss))
 	}
 	return n
 }
